@@ -43,6 +43,12 @@ pub struct Scenario {
     /// without extending it (the path added by the F15 repair) - under the schedules, with readers open
     #[serde(default)]
     pub failed_remap: bool,
+    /// C09: writer 0's k-th increment (1-based, 0 = never) ends in a panic of the *client's* code while its
+    /// write transaction is open (the transaction is dropped by the unwinding).  Whatever the database does
+    /// afterwards - the pinned code refuses further writers with a lock error - every thread that keeps
+    /// using the handle must still come back from every call.
+    #[serde(default)]
+    pub client_panic: usize,
 }
 
 /// what commit number `c` of the C04 writer chain does: (bucket, key, Some(value) = put / None = delete)
@@ -94,6 +100,8 @@ enum Ev {
     WriterOverlap { seq: u64, inside: i32 },
     Increment { seq: u64, writer: usize, k: usize, saw: u64 },
     Panic { seq: u64, msg: String },
+    ClientPanic { seq: u64 },
+    WriterRefused { seq: u64, err: String },
 }
 
 type Log = Arc<Mutex<Vec<Ev>>>;
@@ -378,13 +386,27 @@ fn scripted_reader(db: DB, sc: Scenario, me: usize, log: Log) -> Box<dyn FnOnce(
 
 // ---- C09 workers -----------------------------------------------------------
 
+static CLIENT_PANICKED: std::sync::atomic::AtomicBool = std::sync::atomic::AtomicBool::new(false);
+const CLIENT_PANIC_MSG: &str = "deliberate panic of the client's code inside an open write transaction";
+
 fn c09_writer(db: DB, sc: Scenario, w: usize, inside: Arc<AtomicI32>, log: Log) -> Box<dyn FnOnce(Arc<Inner>) + Send> {
     Box::new(move |g: Arc<Inner>| {
         for k in 0..sc.increments_per_writer {
             g.point(sched::P_BEFORE_BEGIN);
             log.lock().unwrap().push(Ev::WriterBeginCall { seq: g.tick() });
+            let refused = std::cell::Cell::new(false);
             let r = util::catch(|| {
-                let tx = db.tx(true).expect("writer begin");
+                let tx = match db.tx(true) {
+                    Ok(tx) => tx,
+                    Err(e) if sc.client_panic != 0 && CLIENT_PANICKED.load(Ordering::SeqCst) => {
+                        // after a client panic inside a write transaction the database may refuse further
+                        // writers (the pinned code reports the poisoned lock); it must not hang
+                        log.lock().unwrap().push(Ev::WriterRefused { seq: g.tick(), err: e.to_string() });
+                        refused.set(true);
+                        return;
+                    }
+                    Err(e) => panic!("writer begin: {}", e),
+                };
                 let was = inside.fetch_add(1, Ordering::SeqCst);
                 if was != 0 {
                     log.lock().unwrap().push(Ev::WriterOverlap { seq: g.tick(), inside: was + 1 });
@@ -404,6 +426,11 @@ fn c09_writer(db: DB, sc: Scenario, w: usize, inside: Arc<AtomicI32>, log: Log) 
                 }
                 g.point(sched::P_BEFORE_COMMIT);
                 inside.fetch_sub(1, Ordering::SeqCst);
+                if sc.client_panic != 0 && w == 0 && k + 1 == sc.client_panic {
+                    CLIENT_PANICKED.store(true, Ordering::SeqCst);
+                    log.lock().unwrap().push(Ev::ClientPanic { seq: g.tick() });
+                    panic!("{}", CLIENT_PANIC_MSG);
+                }
                 log.lock().unwrap().push(Ev::CommitCall { seq: g.tick(), n: k });
                 let r = tx.commit();
                 let seq = g.tick();
@@ -413,7 +440,13 @@ fn c09_writer(db: DB, sc: Scenario, w: usize, inside: Arc<AtomicI32>, log: Log) 
                 log.lock().unwrap().push(Ev::CommitRet { seq, n: k, ok: r.is_ok(), reach: None, err: r.err().map(|e| e.to_string()).unwrap_or_default() });
             });
             if let Err(p) = r {
+                if p.msg.contains(CLIENT_PANIC_MSG) {
+                    continue; // the client's own panic: this thread carries on with the same handle
+                }
                 log.lock().unwrap().push(Ev::Panic { seq: g.tick(), msg: format!("writer panicked at {}:{}: {}", p.file, p.line, p.msg) });
+                return;
+            }
+            if refused.get() {
                 return;
             }
             g.point(sched::P_AFTER_COMMIT);
@@ -468,6 +501,8 @@ fn c09_reader(db: DB, sc: Scenario, log: Log) -> Box<dyn FnOnce(Arc<Inner>) + Se
 
 #[derive(Default)]
 pub struct St {
+    pub client_panic_executions: u64,
+    pub writers_refused_after_client_panic: u64,
     pub executions: u64,
     pub decisions: u64,
     pub preemptions: u64,
@@ -520,6 +555,10 @@ fn execute(sc: &Scenario, mode: Mode, path: &std::path::Path, st: &mut St) -> Re
         st.failed_remap_starts += 1;
     }
     let inside = Arc::new(AtomicI32::new(0));
+    CLIENT_PANICKED.store(false, Ordering::SeqCst);
+    if sc.client_panic != 0 {
+        st.client_panic_executions += 1;
+    }
     let mut roles: Vec<&'static str> = Vec::new();
     if is_c04 && !sc.script.is_empty() {
         let l: Log = Arc::new(Mutex::new(Vec::new()));
@@ -851,7 +890,8 @@ fn judge_c09(sc: &Scenario, all: &[(usize, Ev)], db: &DB, st: &mut St, viol: &mu
         }
         Err(p) => viol.push(("final-read-panics".into(), p.msg)),
     }
-    if incs.len() != sc.writers * sc.increments_per_writer && viol.is_empty() {
+    st.writers_refused_after_client_panic += all.iter().filter(|(_, e)| matches!(e, Ev::WriterRefused { .. })).count() as u64;
+    if sc.client_panic == 0 && incs.len() != sc.writers * sc.increments_per_writer && viol.is_empty() {
         viol.push(("writer-did-not-finish".into(), format!("{} of {} increments committed", incs.len(), sc.writers * sc.increments_per_writer)));
     }
 }
@@ -945,6 +985,7 @@ pub fn scenarios(prop: &str, thorough: bool) -> Vec<Scenario> {
         script: vec![],
         varied: false,
         failed_remap: false,
+        client_panic: 0,
     };
     if prop == "C04" {
         let mut v = vec![
@@ -990,6 +1031,9 @@ pub fn scenarios(prop: &str, thorough: bool) -> Vec<Scenario> {
             Scenario { writers: 2, increments_per_writer: 2, readers: 2, num_pages: 7, ..b.clone() },
             // the growing increment maps the file again without extending it (an earlier remap failed, see C04)
             Scenario { writers: 2, increments_per_writer: 2, readers: 2, grow_at: 1, num_pages: 8, failed_remap: true, ..b.clone() },
+            // a client panic inside writer 0's first (second) write transaction; everybody else carries on
+            Scenario { writers: 3, increments_per_writer: 2, readers: 1, client_panic: 1, ..b.clone() },
+            Scenario { writers: 2, increments_per_writer: 3, readers: 1, client_panic: 2, ..b.clone() },
         ];
         if thorough {
             v.push(Scenario { writers: 3, increments_per_writer: 2, readers: 2, rereads: 1, ..b.clone() });
@@ -1184,6 +1228,10 @@ pub fn run(ctx: &Ctx, prop: &str) -> Shard {
     shard.count("executions", st.executions);
     shard.count("executions_starting_on_an_exactly_full_file", st.exactly_full_starts);
     shard.count("executions_starting_after_a_failed_remap(file_long,map_short)", st.failed_remap_starts);
+    if prop == "C09" {
+        shard.count("executions_with_a_client_panic_inside_an_open_write_transaction", st.client_panic_executions);
+        shard.count("writer_begins_refused_after_the_client_panic(returned, did not hang)", st.writers_refused_after_client_panic);
+    }
     shard.count("scheduling_decisions", st.decisions);
     shard.count("preemptions", st.preemptions);
     shard.count("workers_found_blocked_on_a_lock", st.blocked_detected);
